@@ -142,6 +142,15 @@ pub fn run_strings(case: &Value, seed: u64) -> Outcome {
         if !seen.insert(text.clone()) { continue; }
         observe_rel(&mut o, case, &text, allow, &feats, true);
         if m == 0 && cls.len() <= 3 { for t in sweep_texts(&cls) { if seen.insert(t.clone()) { observe_rel(&mut o, case, &t, allow, &feats, true); } } }
+        // SCALED variants (judged on the real readers alone: fidelity, strict-iff-no-error): the text 600 times in a
+        // row, as 600 entries and as 600 alternatives, and with every identifier character stretched to 4000
+        if m == 0 && crate::conc::hash64(&o.key) % 97 == 0 && !text.is_empty() {
+            let f2 = { let mut f = feats.clone(); f.push("scaled".into()); f };
+            for big in [text.repeat(600), vec![text.as_str(); 600].join(", "), vec![text.as_str(); 600].join(" | "),
+                        text.chars().map(|c| if c.is_ascii_alphanumeric() { c.to_string().repeat(4000) } else { c.to_string() }).collect::<String>()] {
+                observe_rel(&mut o, case, &big, allow, &f2, false);
+            }
+        }
         if o.sample.is_null() && cls.len() >= 3 {
             o.sample = json!({"classes": cls.join(""), "allow_substvar": allow, "text": text, "model_tokens": case["t"], "model_errors": case["e"]});
         }
